@@ -1,6 +1,8 @@
 import FrappyProofs.Lemmas.Describe
 import FrappyProofs.Lemmas.ModuleProps
 import FrappyProofs.Props.C04
+import FrappyProofs.Props.C03
+import FrappyModel.Node.DescribeDT
 import FrappyModel.Generated.C06
 /-
 C06 — property theorems (nothing but property theorems and their non-vacuity examples).
@@ -1721,5 +1723,200 @@ example : (findDesc (describe pre node) "m" "_k").map (fun ad => (ad.readonly, a
 open Frappy.Props.C04.Example in
 /-- `m:k` (the attribute name) is not described, hence unreachable -/
 example : findDesc (describe pre node) "m" "k" = none := by decide +kernel
+
+/-! ### the described datainfo of a parameter whose datatype is DERIVED (class + configuration), not assumed -/
+
+section Derived
+open Frappy Frappy.Datatypes FloatOps Frappy.Lemmas.C03Datainfo
+variable {F : Type} [FloatOps F] [LawfulFloatOps F] [CompatLaws F]
+
+/-- **derived_datainfo_equiv** (the datatype-oracle law `AcceptLaw`, PROVED for the datatype trees of C01–C03).  For
+every well-formed tree whose scaled limits lie on the grid: `export_datatype()` succeeds, and a client that rebuilds
+its datatype from that datainfo does with EVERY payload (and every previous value) exactly what the dispatcher does
+with the original object — same verdict, same error class, same value. -/
+theorem derived_datainfo_equiv (D : Consts F) (hD : D.OK) (t : DInfo F) (hwf : t.WF D) (hex : t.Exportable) :
+    ∃ di, exportDatatype D t = .ok di ∧ ∀ j prev, clientAccept D di j prev = acceptWire t.erase j prev := by
+  obtain ⟨di, t', h1, h2, _, h4, h5⟩ := Frappy.Props.C03.rebuild_equiv D hD t hwf hex
+  refine ⟨di, h1, fun j prev => ?_⟩
+  unfold clientAccept acceptWire
+  rw [h2]; simp only [h5 j]
+  cases importValue t.erase j with
+  | error e => rfl
+  | ok v => exact h4 v prev
+
+/-- **cfg_limit_stored**: a limit given in the configuration of a scaled parameter is stored as given (any finite
+float): nothing moves it to the grid. -/
+theorem cfg_limit_stored (D : Consts F) (hD : D.OK) (k : LimitKey) (x s mn mx ar rr : F) (u f : String)
+    (hx : isFinite x = true) (hc : addZero x = x) :
+    setLimit D k (.float x) (.scaled s mn mx ar rr u f) =
+      .ok (match k with
+        | .min => .scaled s x mx ar rr u f
+        | .max => .scaled s mn x ar rr u f) := by
+  cases k <;> simp only [setLimit,
+    propDouble_self D hD hc hx neg_max_finite max_finite (CompatLaws.finite_bounds x hx).1 (CompatLaws.finite_bounds x hx).2]
+
+/-- **configured_scaled_described** (the description of a scaled parameter whose upper limit comes from the
+configuration).  Let the configuration set `max` of a well-formed scaled datatype to a finite `x ≥ min` ON THE GRID
+(`x = k·scale` as floats; `Aligned` is a statement about `round`, it does not say on which side of `k` the float quotient
+`x / scale` lands), the lower limit being on the grid too.  Then the instance datatype is well formed, the integer the
+report states as `max` is a grid index whose grid value IS `x`, and the datatype a client rebuilds from the described
+datainfo treats every payload exactly as the node does. -/
+theorem configured_scaled_described (D : Consts F) (hD : D.OK) (s mn mx ar rr x : F) (u f : String)
+    (hwf : (DInfo.scaled s mn mx ar rr u f).WF D) (hx : isFinite x = true) (hc : addZero x = x)
+    (hle : le mn x = true) (hmn : DInfo.Aligned s mn) (hax : DInfo.Aligned s x) :
+    ∃ t', setLimit D .max (.float x) (.scaled s mn mx ar rr u f) = .ok t' ∧ limitsOrdered t' = true ∧ t'.WF D ∧
+      ∃ kmax fields, exportDatatype D t' = .ok (.obj fields) ∧ PVal.dictGet fields "max" = some (.int kmax) ∧
+        DType.ofGrid s kmax = some x ∧
+        ∀ j prev, clientAccept D (.obj fields) j prev = acceptWire t'.erase j prev := by
+  have hwf' : (DInfo.scaled s mn x ar rr u f).WF D := by
+    simp only [DInfo.WF, DType.WF] at hwf ⊢
+    obtain ⟨⟨a1, a2, a3, _, _, a6, _, a8, a9, a10, a11⟩, b⟩ := hwf
+    exact ⟨⟨a1, a2, a3, hx, hle, a6, hc, a8, a9, a10, a11⟩, b⟩
+  have hex : (DInfo.scaled s mn x ar rr u f).Exportable := ⟨hmn, hax⟩
+  refine ⟨_, cfg_limit_stored D hD .max x s mn mx ar rr u f hx hc, hle, hwf', ?_⟩
+  obtain ⟨_, kmax, fields, e1, _, e3, _, e5⟩ := Frappy.Props.C03.scaled_description_exact D s mn x ar rr u f hmn hax
+  obtain ⟨di, d1, d2⟩ := derived_datainfo_equiv D hD _ hwf' hex
+  rw [e1] at d1; injection d1 with d1; subst d1
+  exact ⟨kmax, fields, e1, e3, e5, d2⟩
+
+/-- **described_datainfo_equiv_derived** (`described_datainfo_equiv` without the oracle assumption).  In a well-formed
+node over the datatype model, let the parameter the dispatcher resolves for a described name carry the operations of
+ONE tree `t` (`dtOpsOf`: the object that is described is the object that validates), well formed with its scaled limits
+on the grid.  Then a client that rebuilds its datatype from the DESCRIBED datainfo of `m:a` answers every payload as the
+node's `change m:a` validation does. -/
+theorem described_datainfo_equiv_derived (pre : Predef) (D : Consts F) (hD : D.OK) (n : Node (JVal F) (PVal F))
+    (hwf : Node.WF pre n) (m a : String) (ad : AccDesc (JVal F)) (h : findDesc (describe pre n) m a = some ad)
+    (hk : ad.kind = .parameter) :
+    ∃ mod p, lookupParam pre n m a = .ok (mod, p) ∧
+      ∀ ev t, p.dt = dtOpsOf D ev t → t.WF D → t.Exportable →
+        ∀ j prev, liftRes (clientAccept D ad.datainfo j prev) = p.dt.accept j prev := by
+  obtain ⟨mod, p, hl, _, hdi, _, _⟩ := described_is_dispatched pre n hwf m a ad h hk
+  refine ⟨mod, p, hl, fun ev t hp htw hte j prev => ?_⟩
+  obtain ⟨di, d1, d2⟩ := derived_datainfo_equiv D hD t htw hte
+  rw [hdi, hp]
+  simp only [dtOpsOf, d1, d2 j prev]
+
+end Derived
+
+/-! non-vacuity of the derived-datainfo theorems: the exact carrier, `ScaledInteger(0.1, 0, 1)` whose `max` the
+configuration sets to 0.3 -/
+namespace Example4
+open Frappy Frappy.Datatypes FloatOps Frappy.Props.C04.Example
+
+def D4 : Consts Rat := ⟨0, 12/100000000, 1/10000000000⟩
+
+theorem D4_ok : D4.OK := by
+  refine ⟨?_, ?_, ?_, ?_, ?_, ?_, ?_, ?_⟩ <;> decide +kernel
+
+def cls4 : DInfo Rat := .scaled (1/10) 0 1 (1/10) (12/100000000) "" "%g"
+def t4 : DInfo Rat := .scaled (1/10) 0 (3/10) (1/10) (12/100000000) "" "%g"
+
+theorem cls4_wf : cls4.WF D4 := by
+  simp only [cls4, DInfo.WF, DType.WF, DInfo.strOK]; decide +kernel
+
+theorem t4_wf : t4.WF D4 := by
+  simp only [t4, DInfo.WF, DType.WF, DInfo.strOK]; decide +kernel
+
+theorem t4_exportable : t4.Exportable := by
+  refine ⟨?_, ?_⟩ <;> (unfold DInfo.Aligned; decide +kernel)
+
+theorem cls4_exportable : cls4.Exportable := by
+  refine ⟨?_, ?_⟩ <;> (unfold DInfo.Aligned; decide +kernel)
+
+theorem stored4 : setLimit D4 .max (.float (3/10)) cls4 = .ok t4 :=
+  cfg_limit_stored D4 D4_ok .max (3/10) (1/10) 0 1 (1/10) (12/100000000) "" "%g" (by decide +kernel) (by decide +kernel)
+
+/-- the hypotheses of `configured_scaled_described` hold; the model computes: instance datatype = class datatype with
+`max` = 0.3, described `max` = 3 -/
+example : instanceDatatype D4 cls4 [(.max, .float (3/10))] = .ok t4 ∧
+    (∃ fields, exportDatatype D4 t4 = .ok (.obj fields) ∧ PVal.dictGet fields "max" = some (.int 3)) := by
+  refine ⟨?_, ?_⟩
+  · have hc : copy D4 cls4 = .ok cls4 :=
+      Frappy.Lemmas.C03Datainfo.copy_core D4 D4_ok Frappy.Props.C03.constsOK2 cls4 cls4_wf cls4_exportable
+    have ho : limitsOrdered t4 = true := by decide +kernel
+    simp only [instanceDatatype, hc, applyLimits, stored4, ho, if_true]
+  obtain ⟨t', h1, _, _, kmax, fields, h2, h3, h4, _⟩ :=
+    configured_scaled_described D4 D4_ok (1/10) 0 1 (1/10) (12/100000000) (3/10) "" "%g" cls4_wf
+      (by decide +kernel) (by decide +kernel) (by decide +kernel) (by unfold DInfo.Aligned; decide +kernel)
+      (by unfold DInfo.Aligned; decide +kernel)
+  have ht : t' = t4 := by
+    have h := stored4
+    simp only [cls4] at h
+    rw [h] at h1; injection h1 with h1; exact h1.symm
+  subst ht
+  refine ⟨fields, h2, ?_⟩
+  have hk : kmax = 3 := by
+    have h5 : DType.ofGrid (1/10 : Rat) kmax = some (3/10) := h4
+    simp only [DType.ofGrid, FloatOps.ofInt, FloatOps.mul] at h5
+    injection h5 with h5
+    have h6 : (kmax : Rat) = 3 := by
+      have h7 : (kmax : Rat) * (1/10) * 10 = (3/10) * 10 := by rw [h5]
+      have e1 : (kmax : Rat) * (1/10) * 10 = (kmax : Rat) := by
+        rw [Rat.mul_assoc]; have : (1/10 : Rat) * 10 = 1 := by decide +kernel
+        rw [this, Rat.mul_one]
+      have e2 : (3/10 : Rat) * 10 = 3 := by decide +kernel
+      rw [e1, e2] at h7; exact h7
+    exact_mod_cast h6
+  rw [h3, hk]
+
+/-- what a datatype answer looks like from outside: the error class, or the float it returns -/
+def look : Res Rat → Option Err × Option Rat
+  | .ok (.float x) => (none, some x)
+  | .ok _ => (none, none)
+  | .error e => (some e, none)
+
+/-- `derived_datainfo_equiv` on that datatype: the payload 3 (0.3) is accepted by the rebuilt client and by the node,
+5 is refused by both -/
+example : ∃ di, exportDatatype D4 t4 = .ok di ∧
+    clientAccept D4 di (.int 3) none = acceptWire t4.erase (.int 3) none ∧
+    clientAccept D4 di (.int 5) none = acceptWire t4.erase (.int 5) none ∧
+    look (acceptWire t4.erase (.int 3) none) = (none, some (3/10)) ∧
+    look (acceptWire t4.erase (.int 5) none) = (some .range, none) := by
+  obtain ⟨di, h1, h2⟩ := derived_datainfo_equiv D4 D4_ok t4 t4_wf t4_exportable
+  exact ⟨di, h1, h2 _ _, h2 _ _, by decide +kernel, by decide +kernel⟩
+
+def p4 : Param (JVal Rat) (PVal Rat) :=
+  { attr := "p", exp := .auto, limitHead := none, isLimitsPair := false, readonly := false, constant := none,
+    dt := dtOpsOf D4 (fun _ => .null) t4, entry := ⟨.float 0, none⟩, checks := [], hasRead := false, hasWrite := false, props := [] }
+def m4 : Module (JVal Rat) (PVal Rat) := { name := "m", exported := true, accs := [.param p4], props := [] }
+def node4 : Node (JVal Rat) (PVal Rat) := [m4]
+
+theorem wf4 : Node.WF pre node4 := by
+  refine ⟨by unfold namesNodup; decide +kernel, ?_, ?_, ?_, ?_⟩
+  · intro x hx; simp only [node4, List.mem_singleton] at hx; subst hx; unfold Module.attrsNodup; decide +kernel
+  · intro x hx; simp only [node4, List.mem_singleton] at hx; subst hx; unfold Module.wiresNodup; decide +kernel
+  · intro x hx; simp only [node4, List.mem_singleton] at hx; subst hx
+    intro a ha k hk
+    simp only [m4, List.mem_singleton] at ha
+    subst ha; revert hk; revert k; decide +kernel
+  · intro x hx; simp only [node4, List.mem_singleton] at hx; subst hx
+    intro a ha p hp hc
+    simp only [m4, List.mem_singleton] at ha
+    subst ha; injection hp with hp; subst hp; simp [p4] at hc
+
+/-- `described_datainfo_equiv_derived` on a node whose parameter `m:_p` carries that datatype: the client built from
+the described datainfo and the node's own validation give the same answer to every payload -/
+example : ∃ ad, findDesc (describe pre node4) "m" "_p" = some ad ∧
+    ∀ j prev, liftRes (clientAccept D4 ad.datainfo j prev) = p4.dt.accept j prev := by
+  cases h : findDesc (describe pre node4) "m" "_p" with
+  | none =>
+    have : (findDesc (describe pre node4) "m" "_p").isSome = true := by decide +kernel
+    rw [h] at this; cases this
+  | some ad =>
+    have hk : ad.kind = .parameter := by
+      have : (findDesc (describe pre node4) "m" "_p").map (·.kind) = some .parameter := by decide +kernel
+      rw [h] at this; simpa using this
+    obtain ⟨mod, p, hl, hall⟩ := described_datainfo_equiv_derived pre D4 D4_ok node4 wf4 "m" "_p" ad h hk
+    have hp : p = p4 := by
+      have hex := exported_of_lookupParam pre node4 "m" "_p" mod p hl
+      have hm : mod = m4 := by simpa [node4] using hex.1
+      have := hex.2.2.2.1
+      rw [hm] at this
+      simp only [m4, List.mem_singleton] at this
+      injection this
+    subst hp
+    exact ⟨ad, rfl, hall _ t4 rfl t4_wf t4_exportable⟩
+
+end Example4
 
 end Frappy.Props.C06
